@@ -97,6 +97,10 @@ int main(int argc, char **argv) {
       if (strcmp(argv[2], "all") && strcmp(argv[2], op)) continue;
       for (size_t cap = 0; cap <= 10; ++cap) for (size_t w = 0; w <= cap; ++w) for (size_t r = 0; r <= w; ++r) for (size_t n = 0; n <= 12; ++n)
         if (run_op(op, cap, r, w, n)) { printf("input: op %s cap=%zu read=%zu write=%zu n=%zu\n", op, cap, r, w, n); return 1; }
+      // the two clamping operations take ANY size: also the ones next to SIZE_MAX (index + size must not wrap)
+      if (!strcmp(op, "hasRead") || !strcmp(op, "hasWritten"))
+        for (size_t cap = 0; cap <= 10; ++cap) for (size_t w = 0; w <= cap; ++w) for (size_t r = 0; r <= w; ++r) for (size_t d = 0; d <= 12; ++d)
+          if (run_op(op, cap, r, w, (size_t)-1 - d)) { printf("input: op %s cap=%zu read=%zu write=%zu n=SIZE_MAX-%zu\n", op, cap, r, w, d); return 1; }
     }
     if (!strcmp(argv[2], "all") || !strcmp(argv[2], "cloneFrom") || !strcmp(argv[2], "assign_copy") || !strcmp(argv[2], "shrink"))
       for (size_t cap = 0; cap <= 6; ++cap) for (size_t w = 0; w <= cap; ++w) for (size_t r = 0; r <= w; ++r)
